@@ -259,6 +259,28 @@ func (c *fn) call(call *ast.CallExpr) cx {
 			}
 		}
 		switch {
+		case p.errRecv:
+			id, _ := unparen(a).(*ast.Ident)
+			var ai *asInfo
+			if id != nil {
+				ai = c.asTarget[c.objOf(id)]
+			}
+			if ai == nil {
+				c.fail(a, "%s is a method of an error type: its receiver must be the target of an errors.As in this function", fi.label)
+			}
+			if eid, ok := unparen(ai.errExpr).(*ast.Ident); ok {
+				for _, ap := range c.assignPositions()[c.objOf(eid)] {
+					if ap > ai.pos && ap < a.Pos() {
+						c.fail(a, "%s is assigned between the errors.As and this use of its target", eid.Name)
+					}
+				}
+			}
+			found := c.fresh("found")
+			c.regLocal(found, "err")
+			ev := c.expr(ai.errExpr)
+			as = append(as, c.liftO([]cx{ev}, func(v []string) cx {
+				return cx{s: found, binds: []bnd{{v: found, term: "(err_find " + CStr(ai.typ) + " " + v[0] + ")"}}}
+			}))
 		case p.callback:
 			// handled by the statement translation (callbackCall)
 		case p.dropped && fi.oracle && c.addressOfLocal(a) != "":
@@ -935,6 +957,14 @@ func (g *gen) global(v *types.Var, from *fn) *globInfo {
 		g.L.scan(path)
 		vd := g.L.vars[path+"."+v.Name()]
 		if vd == nil {
+			if msg, ok := g.L.knownSentinels[path+"."+v.Name()]; ok {
+				// the selftest corpus: a sentinel of a package loaded without its sources
+				gi.name = g.claim(key, pkgBase(path)+"_"+v.Name())
+				it.name = gi.name
+				gi.sentinel = true
+				it.text = fmt.Sprintf("(* var %s (sentinel of a package loaded without sources) *)\nDefinition %s : (option err) :=\n  (Some (Err %s %s [])).", cmt(label), gi.name, CStr(label), CStr(msg))
+				return
+			}
 			g.fail("package-level variable %s: declaration not found in the loaded sources", label)
 		}
 		if g.L.mutated[path+"."+v.Name()] {
@@ -1117,7 +1147,8 @@ func init() {
 				})
 			}
 			if uses > 1 {
-				c.fail(call, "the errors.As target %s is used afterwards (the found error is not copied into it)", x.Name)
+				// allowed when every other use is the receiver of a method that is an oracle over the found error
+				c.asTargetUses(call, x, o)
 			}
 		default:
 			c.fail(call, "errors.As target must be &T{..} or &v")
@@ -1299,7 +1330,6 @@ func (c *fn) localErrIdentity(e ast.Expr) (string, bool) {
 	return name + "#" + id.Name, true
 }
 
-
 // ---------- reflect.DeepEqual ----------
 
 // deepEqualCall: reflect.DeepEqual(x, G) with G a package-level variable that is never assigned and
@@ -1457,4 +1487,49 @@ func (g *gen) deepEqb(t types.Type, sub tsubst, busy map[string]bool) string {
 	}
 	g.fail("reflect.DeepEqual on a value of type %s", types.TypeString(t, nil))
 	return ""
+}
+
+
+// asTargetUses: the errors.As target v is used elsewhere; every such use must be the receiver of a call
+// of an oracle method of the error type (the oracle then gets the error errors.As found).
+func (c *fn) asTargetUses(asCall *ast.CallExpr, v *ast.Ident, o types.Object) {
+	errExpr := unparen(asCall.Args[0])
+	if _, ok := errExpr.(*ast.Ident); !ok {
+		c.fail(asCall, "the errors.As target %s is used afterwards and the error is not a plain variable", v.Name)
+	}
+	ok := true
+	var stack []ast.Node
+	ast.Inspect(c.decl.Body, func(n ast.Node) bool {
+		if n == nil {
+			stack = stack[:len(stack)-1]
+			return true
+		}
+		stack = append(stack, n)
+		id, isId := n.(*ast.Ident)
+		if !isId || c.info.Uses[id] != o || id == v {
+			return true
+		}
+		// v.M(..): Ident <- SelectorExpr <- CallExpr
+		good := false
+		if len(stack) >= 3 {
+			if se, isSel := stack[len(stack)-2].(*ast.SelectorExpr); isSel && se.X == ast.Expr(id) {
+				if call, isCall := stack[len(stack)-3].(*ast.CallExpr); isCall && call.Fun == ast.Expr(se) && id.Pos() > asCall.Pos() {
+					if fi, _, _ := c.calleeInfoSafe(call); fi != nil && fi.oracle && len(fi.params) > 0 && fi.params[0].errRecv {
+						good = true
+					}
+				}
+			}
+		}
+		if !good {
+			ok = false
+		}
+		return true
+	})
+	if !ok {
+		c.fail(asCall, "the errors.As target %s is used afterwards (only calls of its methods declared as oracles are supported: the found error is not copied into it)", v.Name)
+	}
+	if c.asTarget == nil {
+		c.asTarget = map[types.Object]*asInfo{}
+	}
+	c.asTarget[o] = &asInfo{errExpr: errExpr, typ: c.asTargetType(asCall.Args[1]), pos: asCall.Pos()}
 }
